@@ -153,6 +153,11 @@ func runC03() {
 				c03Scenario(s, []c03Fault{{k, i}}, r.Fork())
 			}
 		}
+		for i := 0; i < 3; i++ {
+			// the crash-cut Commit of a transaction with a pre-history (c02hist.go): the answer it got against the store
+			historyScenario(r.Fork())
+			rec.Count("c03:family:history")
+		}
 		if run.Thorough() {
 			// pairs: a sample of (kind, index) × (kind, index) with the second at or after the first
 			for p := 0; p < 40 && cnt > 0; p++ {
